@@ -126,6 +126,18 @@ def k_text(run, case, rng, work):
         given["T"] = np.array([np.array(P, dtype=float)[:3, :] for P in tw.poses_se3])
     writer = fi.write_tum_trajectory_file if fmt == "tum" else fi.write_kitti_poses_file
     reader = fi.read_tum_trajectory_file if fmt == "tum" else fi.read_kitti_poses_file
+    history = "fresh path"
+    if isinstance(wt, (str, Path)) and rng.random() < .35:
+        # the path has a history in this process: another (BOM-prefixed / longer / comment-only
+        # headed) file was read from it before
+        history = "path read before (BOM file)"
+        other = make_traj(rng, int(rng.integers(1, 30)), "ordinary", "xyzq", stamped=(fmt == "tum"))
+        buf = io.StringIO()
+        writer(buf, other)
+        with open(wt, "wb") as fh:
+            fh.write(b"\xef\xbb\xbf" + b"# earlier content\n" + buf.getvalue().encode())
+        contracts.outcome_of(reader, wt)
+        contracts.outcome_of(fi.has_utf8_bom, wt)
     if special == "handle":
         with open(wt, "w") as fh:
             writer(fh, tr)
@@ -137,7 +149,7 @@ def k_text(run, case, rng, work):
             rt.seek(0)
         back = reader(rt)
     run.seen(case, core.digest(given, fmt, label), nontrivial=bool(np.any(given["p"] != 0)),
-             cls=["%s via %s" % (fmt, label), "values:" + cls, "storage:" + mode],
+             cls=["%s via %s" % (fmt, label), "values:" + cls, "storage:" + mode, history],
              sample={"fmt": fmt, "n": n, "values": cls, "variant": label, "first_row": given["p"][0]})
     ok = run.check(back.num_poses == n, fmt + ": same number of poses", case,
                    "%s round trip changed the pose count %d -> %d" % (fmt, n, back.num_poses),
